@@ -7,6 +7,7 @@ import (
 	"net/http"
 	"net/url"
 	"path"
+	"sort"
 	"strings"
 
 	"github.com/getkin/kin-openapi/openapi3"
@@ -425,6 +426,32 @@ func c16Special() []refTree {
 			{Position: "mediaType.examples.e", Kind: "example", Shape: "same-name-in-every-collection-of-one-file", Ref: "common.json#/components/examples/Pet", Marker: "MARKEXAMPLEPET"},
 			{Position: "components.schemas.Site", Kind: "schema", Shape: "same-name-in-every-collection-of-one-file", Ref: "common.json#/components/schemas/Pet", Marker: "MARKSCHEMAPET"},
 		})
+		// (h) the same library, and the root already owns a component under the very name each external object would be given
+		root = refRootSkeleton()
+		dig(root, "components", "schemas")["Site"] = gen.S{"$ref": "common.json#/components/schemas/Pet"}
+		dig(root, "paths", "/op1", "post", "responses")["201"] = gen.S{"$ref": "common.json#/components/responses/Pet"}
+		dig(root, "paths", "/op1", "post")["parameters"] = gen.Arr(gen.S{"$ref": "common.json#/components/parameters/Pet"})
+		dig(root, "paths", "/op2", "post")["requestBody"] = gen.S{"$ref": "common.json#/components/requestBodies/Pet"}
+		dig(root, "paths", "/op2", "post", "responses", "200", "headers")["H"] = gen.S{"$ref": "common.json#/components/headers/Pet"}
+		dig(root, "paths", "/op2", "post", "responses", "200", "content", "application/json", "examples")["e"] = gen.S{"$ref": "common.json#/components/examples/Pet"}
+		dig(root, "paths", "/op2", "post", "responses", "200", "links")["L"] = gen.S{"$ref": "common.json#/components/links/Pet"}
+		dig(root, "paths", "/op2", "post", "callbacks")["cb"] = gen.S{"$ref": "common.json#/components/callbacks/Pet"}
+		for _, kc := range [][2]string{{"schema", "schemas"}, {"response", "responses"}, {"parameter", "parameters"}, {"requestBody", "requestBodies"}, {"header", "headers"}, {"example", "examples"}, {"link", "links"}, {"callback", "callbacks"}} {
+			dig(root, "components", kc[1])["common_Pet"] = targetObject(kc[0], "DECOYROOT"+strings.ToUpper(kc[0]))
+		}
+		common2 := gen.CloneValue(common).(gen.S)
+		dig(common2, "components")["links"] = gen.S{"Pet": targetObject("link", "MARKLINKPET")}
+		dig(common2, "components")["callbacks"] = gen.S{"Pet": targetObject("callback", "MARKCBPET")}
+		mk(rootPath, root, map[string]gen.S{dir + "/common.json": common2}, []refPlan{
+			{Position: "operation.callbacks.cb", Kind: "callback", Shape: "root-owns-the-name-the-external-object-would-get", Ref: "common.json#/components/callbacks/Pet", Marker: "MARKCBPET"},
+			{Position: "response.links.L", Kind: "link", Shape: "root-owns-the-name-the-external-object-would-get", Ref: "common.json#/components/links/Pet", Marker: "MARKLINKPET"},
+			{Position: "operation.responses.201", Kind: "response", Shape: "root-owns-the-name-the-external-object-would-get", Ref: "common.json#/components/responses/Pet", Marker: "MARKRESPPET"},
+			{Position: "nested:op2.requestBody", Kind: "requestBody", Shape: "root-owns-the-name-the-external-object-would-get", Ref: "common.json#/components/requestBodies/Pet", Marker: "MARKBODYPET"},
+			{Position: "operation.parameters[]", Kind: "parameter", Shape: "root-owns-the-name-the-external-object-would-get", Ref: "common.json#/components/parameters/Pet", Marker: "MARKPARAMPET"},
+			{Position: "response.headers.H", Kind: "header", Shape: "root-owns-the-name-the-external-object-would-get", Ref: "common.json#/components/headers/Pet", Marker: "MARKHEADERPET"},
+			{Position: "mediaType.examples.e", Kind: "example", Shape: "root-owns-the-name-the-external-object-would-get", Ref: "common.json#/components/examples/Pet", Marker: "MARKEXAMPLEPET"},
+			{Position: "components.schemas.Site", Kind: "schema", Shape: "root-owns-the-name-the-external-object-would-get", Ref: "common.json#/components/schemas/Pet", Marker: "MARKSCHEMAPET"},
+		})
 	}
 	return out
 }
@@ -591,6 +618,7 @@ func c16Tree(c *core.Ctx, t refTree) {
 	}
 	validBefore := d.Validate(context.Background()) == nil
 	trafficBefore := c16Traffic(d)
+	compsBefore := c16ComponentMarkers(d)
 	// internalize
 	calls := 0
 	limit := 1000 * (len(t.Plans) + 4)
@@ -646,7 +674,9 @@ func c16Tree(c *core.Ctx, t refTree) {
 	c.Count("refs_checked_in_output", int64(len(refs)))
 	// (2) reloads with external references disallowed
 	l2 := openapi3.NewLoader()
-	l2.ReadFromURIFunc = func(_ *openapi3.Loader, u *url.URL) ([]byte, error) { return nil, fmt.Errorf("nothing may be read: %s", u) }
+	l2.ReadFromURIFunc = func(_ *openapi3.Loader, u *url.URL) ([]byte, error) {
+		return nil, fmt.Errorf("nothing may be read: %s", u)
+	}
 	var d2 *openapi3.T
 	if pi := core.Guard(func() { d2, err = l2.LoadFromData(outB) }); pi != nil {
 		c.Violate(core.PanicFeatures(pi), mkW(&first, out, pi.Value, ""), desc)
@@ -677,6 +707,23 @@ func c16Tree(c *core.Ctx, t refTree) {
 			c.Cover("sites_preserved", pl.Kind)
 		}
 	}
+	// (4b) every component the root had before still designates the same object under its own name
+	compsAfter := c16ComponentMarkers(d2)
+	compNames := make([]string, 0, len(compsBefore))
+	for k := range compsBefore {
+		compNames = append(compNames, k)
+	}
+	sort.Strings(compNames)
+	for _, k := range compNames {
+		if got, ok := compsAfter[k]; !ok || got != compsBefore[k] {
+			f := feat("root_component_changed_after_internalize")
+			f["collection"] = strings.SplitN(k, "/", 2)[0]
+			c.Violate(f, mkW(&first, out, fmt.Sprintf("%s -> %q (present=%v)", k, got, ok), compsBefore[k]),
+				fmt.Sprintf("%s\nthe root's own component %s designated %q before InternalizeRefs and %q (present=%v) after", desc, k, compsBefore[k], got, ok))
+			break
+		}
+	}
+	c.Count("root_components_compared", int64(len(compsBefore)))
 	// (5) traffic verdicts unchanged
 	if after := c16Traffic(d2); after != trafficBefore {
 		c.Violate(feat("traffic_verdicts_changed"), mkW(&first, out, after, trafficBefore), desc+"\nbefore "+trafficBefore+"\nafter  "+after)
@@ -730,7 +777,9 @@ func c16Tree(c *core.Ctx, t refTree) {
 		}
 	}
 	l3 := openapi3.NewLoader()
-	l3.ReadFromURIFunc = func(_ *openapi3.Loader, u *url.URL) ([]byte, error) { return nil, fmt.Errorf("nothing may be read: %s", u) }
+	l3.ReadFromURIFunc = func(_ *openapi3.Loader, u *url.URL) ([]byte, error) {
+		return nil, fmt.Errorf("nothing may be read: %s", u)
+	}
 	d3, err := l3.LoadFromData(out2)
 	if err != nil {
 		f := feat("internalized_document_does_not_reload")
@@ -744,6 +793,58 @@ func c16Tree(c *core.Ctx, t refTree) {
 		f["history"] = "second InternalizeRefs on the same document"
 		c.Violate(f, mkW(&first, string(out2), "Holder.added does not resolve to the added object", "MARKADDED / MARKADDEDY"), desc)
 	}
+}
+
+// c16ComponentMarkers: what every component of the document designates ("collection/name" -> marker of the resolved object).
+func c16ComponentMarkers(d *openapi3.T) map[string]string {
+	out := map[string]string{}
+	if d == nil || d.Components == nil {
+		return out
+	}
+	put := func(coll, name string, f func() (string, string, bool, bool)) {
+		core.Guard(func() {
+			if _, marker, resolved, found := f(); found && resolved {
+				out[coll+"/"+name] = marker
+			}
+		})
+	}
+	for n, v := range d.Components.Schemas {
+		v := v
+		put("schemas", n, func() (string, string, bool, bool) { return schemaInfo(v) })
+	}
+	for n, v := range d.Components.Parameters {
+		v := v
+		put("parameters", n, func() (string, string, bool, bool) { return paramInfo(v) })
+	}
+	for n, v := range d.Components.Headers {
+		v := v
+		put("headers", n, func() (string, string, bool, bool) { return headerInfo(v) })
+	}
+	for n, v := range d.Components.RequestBodies {
+		v := v
+		put("requestBodies", n, func() (string, string, bool, bool) { return bodyInfo(v) })
+	}
+	for n, v := range d.Components.Responses {
+		v := v
+		put("responses", n, func() (string, string, bool, bool) { return respInfo(v) })
+	}
+	for n, v := range d.Components.SecuritySchemes {
+		v := v
+		put("securitySchemes", n, func() (string, string, bool, bool) { return secInfo(v) })
+	}
+	for n, v := range d.Components.Examples {
+		v := v
+		put("examples", n, func() (string, string, bool, bool) { return exInfo(v) })
+	}
+	for n, v := range d.Components.Links {
+		v := v
+		put("links", n, func() (string, string, bool, bool) { return linkInfo(v) })
+	}
+	for n, v := range d.Components.Callbacks {
+		v := v
+		put("callbacks", n, func() (string, string, bool, bool) { return cbInfo(v) })
+	}
+	return out
 }
 
 // c16Traffic validates a fixed set of requests/responses and returns the verdict string.
